@@ -483,6 +483,7 @@ func c13Check(c *kit.Case, in c13Input) {
 		}
 	} else {
 		c.Class("reference_parser_unusable")
+		c.Class("reference_parser_unusable_" + cdcShort(cdc.Name))
 	}
 	if rej != nil && rej.Off >= consumed && rej.Reason != typegen.RTrailing {
 		// the implementation stopped before the first thing the strict parser objects to
